@@ -300,6 +300,8 @@ type vc08Run struct {
 	opCount    int
 	maxClock   uint32
 	pagesMax   uint32
+	starts     int    // Start() calls on the current state object
+	codecOrc   string // oracle verdict of the last byte-layer op
 }
 
 func (r *vc08Run) open() {
@@ -314,6 +316,7 @@ func (r *vc08Run) open() {
 		r.t.Fatal(err)
 	}
 	r.st = s.(*state)
+	r.starts = 0
 	if err := r.st.Configure(core.ServerConfig{}); err != nil {
 		r.t.Fatal(err)
 	}
@@ -797,7 +800,11 @@ func (r *vc08Run) exec(op *vc08Op) {
 			line = r.codec(op)
 		}()
 		op.Xs, op.Is, op.Ws = []uint32{}, []uint32{}, []uint32{}
-		r.emit(op, line, "ok")
+		orc := r.codecOrc
+		if orc == "" {
+			orc = "ok"
+		}
+		r.emit(op, line, orc)
 		return
 	}
 	func() {
@@ -938,6 +945,7 @@ func (r *vc08Run) exec(op *vc08Op) {
 				tag = "err:" + err.Error()
 				break
 			}
+			r.starts++
 			r.st.IncorrectStateDetected()
 			r.st.IncorrectStateDetected()
 			deadline := time.Now().Add(25 * time.Second)
